@@ -1507,8 +1507,13 @@ func (g *gen) behC18() M {
 	cfg["limit"] = L
 	cfg["auth"] = "clear"
 	cfg["mw"] = []any{"ok"}
-	steps := []any{send(M{"t": "Startup", "term": true, "kvs": []any{M{"k": "user", "v": g.text(20)}, M{"k": "database", "v": g.text(20)}, M{"k": "application_name", "v": g.text(100)}}}),
-		send(M{"t": "p", "pw": "good"})}
+	kvs := []any{M{"k": "user", "v": g.text(20)}, M{"k": "database", "v": g.text(20)}, M{"k": "application_name", "v": g.text(100)}}
+	if g.chance(0.3) {
+		kvs = []any{kvs[0], kvs[2]} // no database named: what the callbacks were given stays what the client sent
+	} else if g.chance(0.2) {
+		kvs[1] = M{"k": "database", "v": ""}
+	}
+	steps := []any{send(M{"t": "Startup", "term": true, "kvs": kvs}), send(M{"t": "p", "pw": "good"})}
 	sizes := []int{1, 2, 100, 4090, 4095, 4096, 4097, L - 1, L, L / 2}
 	for i := range sizes {
 		if sizes[i] > L { // everything here fits the limit (oversized messages are sent as such, see "Big")
